@@ -777,7 +777,8 @@ class PipeWorld:
         info = self.hands.get(id(hand))
         if info is not None:
             info['last_sent'] = m
-        active = hasattr(ctx, 'fsm') and ctx.fsm.is_pipeline_active()
+        # independent of the code's own predicate: active = state running and no transition in progress
+        active = hasattr(ctx, 'fsm') and ctx.fsm.state == 'running' and ctx.fsm.transitioning.name == 'active'
         if m.type in (message.Type.task, message.Type.wait) and not active:
             self.violate('C11', 'sent_while_inactive', m.type.name, f'{m.type.name} message written to a worker while the pipeline is not active (state {ctx.fsm.state})')
         if m.type == message.Type.response and m.success is True and not active:
